@@ -1,7 +1,7 @@
 """C01 -- the format-preserving parser is lossless: parse then dump reproduces the input."""
 import ast
 
-from .. import rx, pieces
+from .. import rx, pieces, paths, normalize, strlang
 from ..core import AnalysisError, norm, walk_no_nested
 
 META = {
@@ -182,65 +182,332 @@ def r3_tokenizer(rep, src, ginfo):
     return loop
 
 
-def r6_whitespace_merge(rep, src, loop):
-    """look-ahead lines joined into a whitespace token: only newline-terminated lines may be merged
-    (newline-terminated mode); in the no-newline mode every merged line gets its newline"""
-    f = src.func(TK + ':tokenize_deb822_file')
-    tw = [c for c in ast.walk(loop) if isinstance(c, ast.Call) and isinstance(c.func, ast.Attribute) and c.func.attr == 'takewhile']
-    if not tw:
-        raise AnalysisError('%s: look-ahead merge of whitespace lines not found' % f.site)
-    problems = []
-    seen_modes = set()
-    for c in tw:
-        lam = c.args[0] if c.args else None
-        if not isinstance(lam, ast.Lambda):
-            problems.append('the look-ahead predicate is not a lambda')
+def _line_loop(f):
+    loops = [s for s in f.node.body if isinstance(s, ast.For)]
+    if len(loops) != 1:
+        raise AnalysisError('%s: line loop not found' % f.site)
+    return loops[0]
+
+
+def _mode_variants(f, loop):
+    """[(mode, env, folder)]: the locals of the preamble expressed over the inputs, once per input mode
+    (auto_correct_newlines False / True)"""
+    consts = paths.module_consts(f.module, '')
+    pre = f.node.body[:f.node.body.index(loop)]
+    out = []
+    for p_ in paths.Enumerator(paths.Folder(consts)).run(pre, [paths.Path()]):
+        if p_.outcome is not None:
             continue
-        x = lam.args.args[0].arg
-        body = norm(lam.body)
-        # which mode? governed by an enclosing `if auto_correct_newlines`
-        mode = None
-        n = c
-        while getattr(n, '_parent', None) is not None:
-            p = n._parent
-            if isinstance(p, ast.If) and norm(p.test) == 'auto_correct_newlines':
-                mode = 'auto' if any(n is s or any(n is d for d in ast.walk(s)) for s in p.body) else 'plain'
-                break
-            n = p
-        ends = "%s.endswith('\\n')" % x
-        if mode in (None, 'plain'):
-            seen_modes.add('plain')
-            if ends in body and ('not ' + ends) not in body:
-                pass
-            else:
-                problems.append('in the newline-terminated mode the look-ahead also merges a final line without a newline: the merged token contains a '
-                                'newline but does not end with one and Deb822Token rejects it (ValueError on e.g. ["A: b\\n", "\\n", "  "])')
-        if mode in (None, 'auto'):
-            seen_modes.add('auto')
-            # every merged element must be x + "\n"
-            par = c._parent
-            comp = par
-            while comp is not None and not isinstance(comp, (ast.ListComp, ast.GeneratorExp, ast.Assign)):
-                comp = getattr(comp, '_parent', None)
-            okc = isinstance(comp, (ast.ListComp, ast.GeneratorExp)) and norm(comp.elt) in ("%s + '\\n'" % norm(comp.generators[0].target),)
-            if not okc and mode == 'auto':
-                problems.append('in the no-newline input mode the merged look-ahead lines are joined without their line ends')
-            if mode is None:
-                problems.append('in the no-newline input mode the merged look-ahead lines are joined without their line ends (lines run together / the '
-                                'token does not end with a newline)')
+        v = p_.env.get('auto_correct_newlines')
+        if v is None:
+            raise AnalysisError('%s: the input-mode flag auto_correct_newlines is not set before the line loop' % f.site)
+        t = paths.Folder(consts).truth(v)
+        if t is not None:
+            out.append((t, p_.env, paths.Folder(consts)))
+            continue
+        key = norm(v)
+        decided = [pol for t0, pol in p_.conds if norm(t0) == key]
+        for mode in ([decided[0]] if decided else [False, True]):
+            def atom(e, key=key, mode=mode):
+                return mode if norm(e) == key else None
+            out.append((mode, p_.env, paths.Folder(consts, atom)))
+    return out
+
+
+def r7_mode_selection(rep, src, loop):
+    """the no-newline input mode must be considered exactly when the first line does not end with a newline
+    (the empty string included); decided on the language of the preamble's path conditions"""
+    f = src.func(TK + ':tokenize_deb822_file')
+    consts = paths.module_consts(f.module, '')
+    pre = f.node.body[:f.node.body.index(loop)]
+    alpha = rx.alphabet('str')
+    anyl = rx.regex_lang('(?s:.*)', 0, 'fullmatch', alpha=alpha)
+    ends_nl = rx.regex_lang(r'(?s:.*)\n', 0, 'fullmatch', alpha=alpha)
+    considered = anyl.complement()
+    var = None
+    ps = [p_ for p_ in paths.Enumerator(paths.Folder(consts)).run(pre, [paths.Path()]) if p_.outcome is None]
+    for p_ in ps:
+        for t, _pol in p_.conds:
+            for c in ast.walk(t):
+                if isinstance(c, ast.Call) and isinstance(c.func, ast.Attribute) and c.func.attr == 'endswith':
+                    var = norm(c.func.value)
+    if var is None:
+        raise AnalysisError('%s: no test of the first line\'s line end before the loop' % f.site)
+
+    def atom(t):
+        if isinstance(t, ast.Compare) and len(t.ops) == 1 and norm(t.left) == var and isinstance(t.comparators[0], ast.Constant) \
+                and t.comparators[0].value is None and isinstance(t.ops[0], (ast.Is, ast.IsNot)):
+            return anyl if isinstance(t.ops[0], ast.IsNot) else anyl.complement()
+        return None
+    for p_ in ps:
+        v = p_.env.get('auto_correct_newlines')
+        if v is None or paths.Folder(consts).truth(v) is False:
+            continue
+        lang = anyl
+        for t, pol in p_.conds:
+            if var not in norm(t):
+                continue
+            pl = strlang.pred_lang(t, var, alpha, atom=atom)
+            lang = lang.intersect(pl if pol else pl.complement())
+        considered = considered.union(lang)
+    want = ends_nl.complement()
+    what = 'the no-newline mode is considered exactly for a first line without a line end'
+    w = want.not_subset_witness(considered)
+    if w is not None:
+        rep.fail('C01.R7', f.site, what, 'a first line %r (no newline) does not enter the no-newline input mode: the following lines are then '
+                 'rejected or mis-tokenised although the same input is accepted in the other spelling' % w, where=f.where)
+        return
+    w = considered.not_subset_witness(want)
+    if w is not None:
+        rep.fail('C01.R7', f.site, what, 'a first line %r that ends with a newline can enter the no-newline input mode' % w, where=f.where)
+        return
+    rep.ok('C01.R7', f.site, what, 'L(mode considered) = Σ* \\ Σ*\\n over the first line')
+
+
+def _closure_expr(f, name):
+    """(param, body expression) of a lambda / expression-bodied closure bound to `name` in the function"""
+    for st in walk_no_nested(f.node):
+        if isinstance(st, ast.FunctionDef) and st.name == name:
+            body = [s for s in st.body if not (isinstance(s, ast.Expr) and isinstance(s.value, ast.Constant))]
+            if len(body) == 1 and isinstance(body[0], ast.Return) and body[0].value is not None and len(st.args.args) == 1:
+                return st.args.args[0].arg, body[0].value
+        if isinstance(st, ast.Assign) and len(st.targets) == 1 and isinstance(st.targets[0], ast.Name) and st.targets[0].id == name \
+                and isinstance(st.value, ast.Lambda) and len(st.value.args.args) == 1:
+            return st.value.args.args[0].arg, st.value.body
+    return None
+
+
+def _merge_sites(f, loop, env, folder):
+    """look-ahead merges of one mode: [(predicate param, predicate body, element var, element expr or None, path description)]"""
+    found = []
+
+    def loop_handler(en, st, path):
+        it = paths.subst(st.iter, path.env) if isinstance(st, ast.For) else None
+        if it is not None and isinstance(it, ast.Call) and isinstance(it.func, ast.Attribute) and it.func.attr == 'takewhile' \
+                and isinstance(st.target, ast.Name) and not st.orelse:
+            var = st.target.id
+            body = [s for s in st.body if not (isinstance(s, ast.Expr) and isinstance(s.value, ast.Constant))]
+            elt = None
+            if len(body) == 1 and isinstance(body[0], ast.AugAssign) and isinstance(body[0].op, ast.Add) and norm(body[0].target) == 'line':
+                elt = paths.subst(body[0].value, {k: v for k, v in path.env.items() if k != var})
+            path.events.append(('merge', it, var, elt, st))
+            return [path]
+        return None
+    en = paths.Enumerator(folder, loop_handler)
+    p0 = paths.Path()
+    p0.env = {k: v for k, v in env.items() if k != 'line'}
+    ps = en.run(loop.body, [p0])
+    seen = set()
+    seen_trees = set()
+    for p_ in ps:
+        trees = [e[1] for e in p_.events if e[0] == 'effect'] + [e[2] for e in p_.events if e[0] == 'store'] + list(p_.env.values()) + [t for t, _ in p_.conds]
+        for e in p_.events:
+            if e[0] == 'merge':
+                k = ('loop', norm(e[1]), norm(e[3]) if e[3] is not None else None)
+                if k not in seen:
+                    seen.add(k)
+                    found.append((e[1], e[2], e[3], 'loop', e[4]))
+        for tree in trees:
+            if not isinstance(tree, ast.AST) or id(tree) in seen_trees:
+                continue
+            seen_trees.add(id(tree))
+            if not any(isinstance(c, ast.Attribute) and c.attr == 'takewhile' for c in ast.walk(tree)):
+                continue
+            par = paths.parents(tree)
+            for c in ast.walk(tree):
+                if isinstance(c, ast.Call) and isinstance(c.func, ast.Attribute) and c.func.attr == 'takewhile':
+                    # context: comprehension over the call / list(call) / the call itself, joined with ''
+                    up = par.get(id(c))
+                    var, elt = None, None
+                    ctx = c
+                    if isinstance(up, ast.comprehension) and up.iter is c and isinstance(up.target, ast.Name) and not up.ifs:
+                        comp = par.get(id(up))
+                        if isinstance(comp, (ast.ListComp, ast.GeneratorExp)) and len(comp.generators) == 1:
+                            var, elt, ctx = up.target.id, comp.elt, comp
+                        else:
+                            ctx = None
+                    elif isinstance(up, ast.comprehension):
+                        ctx = None
+                    elif isinstance(up, ast.Call) and norm(up.func) in ('list', 'tuple') and len(up.args) == 1:
+                        ctx = up
+                    k = ('expr', norm(c), norm(elt) if elt is not None else None, ctx is None)
+                    if k in seen:
+                        continue
+                    seen.add(k)
+                    join_ok = False
+                    if ctx is not None:
+                        j = par.get(id(ctx))
+                        while isinstance(j, ast.Call) and norm(j.func) in ('list', 'tuple'):
+                            ctx, j = j, par.get(id(j))
+                        if isinstance(j, ast.Call) and isinstance(j.func, ast.Attribute) and j.func.attr == 'join' \
+                                and isinstance(j.func.value, ast.Constant) and j.func.value.value == '' and j.args and j.args[0] is ctx:
+                            join_ok = True
+                        elif isinstance(j, ast.Call) and isinstance(j.func, ast.Attribute) and j.func.attr == 'join':
+                            join_ok = 'sep'
+                        elif j is None or isinstance(j, (ast.BoolOp, ast.UnaryOp, ast.Compare)):
+                            join_ok = 'test'        # the look-ahead used as a condition only
+                    found.append((c, var, elt, 'expr' if join_ok is True else join_ok if join_ok else 'unknown', c))
+    return found
+
+
+def r6_whitespace_merge(rep, src, loop):
+    """look-ahead lines joined into a whitespace token.  Decided per input mode on languages:
+       newline-terminated mode: every merged line ends with a newline and is appended unchanged;
+       no-newline mode: merged lines carry no newline and each is appended with exactly one;
+    and the resulting token texts satisfy the invariant extracted from Deb822Token._verify_token_text."""
+    f = src.func(TK + ':tokenize_deb822_file')
+    alpha = rx.alphabet('str')
+    anyl = rx.regex_lang('(?s:.*)', 0, 'fullmatch', alpha=alpha)
+    ends_nl = rx.regex_lang(r'(?s:.*)\n', 0, 'fullmatch', alpha=alpha)
+    has_nl = rx.regex_lang(r'(?s:.*)\n(?s:.*)', 0, 'fullmatch', alpha=alpha)
+    wsr = src.regex(TK, '_RE_WHITESPACE_LINE')
+    rep.saw_regex('tokens:_RE_WHITESPACE_LINE')
+    variants = _mode_variants(f, loop)
+    if {m for m, _, _ in variants} != {False, True}:
+        raise AnalysisError('%s: the two input modes could not be separated' % f.site)
+
+    def regex_atom(var):
+        def atom(t):
+            # <REGEX>.match(var) [is not None]  /  is None
+            neg = False
+            e = t
+            if isinstance(t, ast.Compare) and len(t.ops) == 1 and isinstance(t.comparators[0], ast.Constant) and t.comparators[0].value is None \
+                    and isinstance(t.ops[0], (ast.Is, ast.IsNot)):
+                neg = isinstance(t.ops[0], ast.Is)
+                e = t.left
+            if isinstance(e, ast.Call) and isinstance(e.func, ast.Attribute) and e.func.attr in ('match', 'fullmatch', 'search') \
+                    and len(e.args) == 1 and norm(e.args[0]) == var and isinstance(e.func.value, ast.Name):
+                try:
+                    r = src.regex(TK, e.func.value.id)
+                except AnalysisError:
+                    return None
+                L = rx.regex_lang(r['pattern'], r['flags'], e.func.attr, alpha=alpha)
+                return L.complement() if neg else L
+            return None
+        return atom
     what = 'merged whitespace lines form a valid token in both input modes'
+    problems = []
+    tokens_by_mode = {}
+    n_sites = 0
+    for mode, env, folder in variants:
+        sites = _merge_sites(f, loop, env, folder)
+        mname = 'no-newline input mode' if mode else 'newline-terminated mode'
+        for call, var, elt, kind, node in sites:
+            if kind == 'test':
+                continue
+            n_sites += 1
+            pred = call.args[0] if call.args else None
+            pv = body = None
+            if isinstance(pred, ast.Lambda) and len(pred.args.args) == 1:
+                pv, body = pred.args.args[0].arg, pred.body
+            elif isinstance(pred, ast.Name):
+                ce = _closure_expr(f, pred.id)
+                if ce is not None:
+                    pv, body = ce[0], paths.subst(ce[1], {k: v for k, v in env.items() if k != ce[0]})
+            if body is None:
+                raise AnalysisError('%s: the look-ahead predicate %s is not an expression-bodied lambda/closure' % (f.site, norm(pred)))
+            body = paths.simplify(body, folder)
+            Lp = strlang.pred_lang(body, pv, alpha, atom=regex_atom(pv))
+            if kind not in ('expr', 'loop'):
+                problems.append('%s: the look-ahead lines are not appended to the token with an empty separator' % mname)
+                continue
+            # element transform: var, var + const, const + var ...
+            suffix = ''
+            if elt is not None:
+                e2 = paths.simplify(elt, folder)
+                parts = []
+
+                def flat(x):
+                    if isinstance(x, ast.BinOp) and isinstance(x.op, ast.Add):
+                        flat(x.left)
+                        flat(x.right)
+                    else:
+                        parts.append(x)
+                flat(e2)
+                if not parts or not (isinstance(parts[0], ast.Name) and parts[0].id == var) or \
+                        not all(isinstance(q, ast.Constant) and isinstance(q.value, str) for q in parts[1:]):
+                    raise AnalysisError('%s: merged element %s is not <line> + <constant>' % (f.site, norm(e2)))
+                suffix = ''.join(q.value for q in parts[1:])
+            if not mode:
+                if suffix != '':
+                    problems.append('%s: %r is added to every merged line, so the token text is not the input text' % (mname, suffix))
+                w = Lp.not_subset_witness(ends_nl)
+                if w is not None:
+                    problems.append('in the newline-terminated mode the look-ahead also merges a final line without a newline (e.g. %r): the merged '
+                                    'token contains a newline but does not end with one and Deb822Token rejects it (ValueError on e.g. '
+                                    '["A: b\\n", "\\n", "  "])' % w)
+            else:
+                if suffix != '\n':
+                    problems.append('in the no-newline input mode the merged look-ahead lines are joined without their line ends '
+                                    '(lines run together / the token does not end with a newline); appended text is <line> + %r' % suffix)
+                w = Lp.intersect(ends_nl).witness()
+                if w is not None:
+                    problems.append('in the no-newline input mode the look-ahead accepts a line that already ends with a newline (e.g. %r), '
+                                    'which the main loop reports as inconsistent input' % w)
+            sfx = rx.regex_lang(rx.literal(suffix), 0, 'fullmatch', alpha=alpha) if suffix else None
+            tokens_by_mode.setdefault(mode, []).append((Lp, suffix))
+            _ = sfx
+    if n_sites < 2:
+        raise AnalysisError('%s: look-ahead merge of whitespace lines not found for both input modes' % f.site)
     if problems:
         for p in sorted(set(problems)):
             rep.fail('C01.R6', f.site, what, p, where=f.where)
     else:
-        rep.ok('C01.R6', f.site, what, 'newline-terminated look-ahead only / newline supplied per merged line')
-    # the verifier's demands (read from Deb822Token._verify_token_text) are the ones assumed above
+        rep.ok('C01.R6', f.site, what, 'newline-terminated look-ahead only / newline supplied per merged line (decided on the predicate languages, %d sites)' % n_sites)
+    # token invariant for whitespace tokens, read from Deb822Token._verify_token_text
     v = src.func(TK + ':Deb822Token._verify_token_text')
-    t = norm(v.node)
-    if "if not self.text.endswith('\\n'):" in t and "if '\\n' in self._text:" in t:
-        rep.ok('C01.R6', v.site, 'token invariant', 'a text containing a newline must end with one', nontrivial=False)
+    rep.saw_func(v)
+    vnode, _ = normalize.inline_helpers(v)
+
+    def tok_atom(e):
+        t = norm(e)
+        if t == 'self.is_whitespace':
+            return True
+        if t == 'self.is_comment' or (t.startswith('isinstance(self, ') and 'Whitespace' not in t):
+            return False
+        return None
+
+    class TextAttr(ast.NodeTransformer):
+        def visit_Attribute(self, n):
+            if norm(n) == 'self.text':
+                return ast.copy_location(ast.Attribute(value=n.value, attr='_text', ctx=n.ctx), n)
+            return self.generic_visit(n)
+    tp = src.func(TK + ':Deb822Token.text')
+    if 'return self._text' not in norm(tp.node):
+        raise AnalysisError('%s does not return self._text' % tp.site)
+    vnode = TextAttr().visit(vnode)
+    ps = paths.function_paths(vnode, paths.Folder(paths.module_consts(v.module, 'Deb822Token'), tok_atom))
+    rejected = anyl.complement()
+    for p_ in ps:
+        if p_.outcome[0] != 'raise':
+            continue
+        lang = anyl
+        for t, pol in p_.conds:
+            pl = strlang.pred_lang(t, 'self._text', alpha)
+            lang = lang.intersect(pl if pol else pl.complement())
+        rejected = rejected.union(lang)
+    # whitespace tokens the tokenizer can build: a whitespace line, plus merged lines in either mode
+    WSL = rx.regex_lang(wsr['pattern'], wsr['flags'], 'fullmatch', alpha=alpha).intersect(rx.regex_lang(r'[^\n]*\n?', 0, 'fullmatch', alpha=alpha))
+    bad = None
+    for mode, lst in tokens_by_mode.items():
+        for Lp, suffix in lst:
+            # first line: ends with a newline when anything is merged (newline-terminated mode: the stream has more lines; no-newline mode: added)
+            first = WSL.intersect(ends_nl) if not mode else rx.concat(WSL.minus(has_nl), rx.regex_lang(r'\n', 0, 'fullmatch', alpha=alpha))
+            merged = Lp.intersect(WSL) if not suffix else rx.concat(Lp.intersect(WSL.minus(ends_nl)), rx.regex_lang(rx.literal(suffix), 0, 'fullmatch', alpha=alpha))
+            tok = rx.concat(first, rx.star(merged))
+            w = tok.intersect(rejected).witness()
+            if w is not None:
+                bad = (mode, w)
+    single = WSL
+    w = single.intersect(rejected).witness()
+    if w is not None:
+        bad = (None, w)
+    if bad is None and not problems:
+        rep.ok('C01.R6', v.site, 'token invariant', 'every whitespace token the tokenizer can build is accepted by _verify_token_text (language inclusion)')
+    elif bad is not None and not problems:
+        rep.fail('C01.R6', v.site, 'token invariant', 'the whitespace token %r, which the tokenizer builds for valid input, is rejected by the token invariant' % (bad[1],), where=v.where)
     else:
-        rep.fail('C01.R6', v.site, 'token invariant', 'the token invariant changed; the merge rule must be revisited', where=v.where)
+        rep.ok('C01.R6', v.site, 'token invariant', 'not evaluated: the merge rule itself is violated', nontrivial=False)
 
 
 def r4_regrouping(rep, src):
@@ -252,6 +519,13 @@ def r4_regrouping(rep, src):
         f = src.func(site)
         rep.saw_func(f)
         what = 'every stream item is yielded exactly once, in order (incl. end-of-stream)'
+        # the loop-carried list (if any): a local initialised to [] before the main loop
+        carried = None
+        for st_ in f.node.body:
+            if isinstance(st_, ast.For):
+                break
+            if isinstance(st_, ast.Assign) and len(st_.targets) == 1 and isinstance(st_.targets[0], ast.Name) and isinstance(st_.value, ast.List) and not st_.value.elts:
+                carried = st_.targets[0].id
         try:
             report = pieces.analyse_loop(f.node, stream, carried=carried, exempt=ex)
         except pieces.Violation as v:
@@ -325,26 +599,109 @@ def r5_element_order(rep, src):
     if n < 2:
         raise AnalysisError('only %d element classes with several stored parts found' % n)
     it = src.func(PM + ':Deb822Element.iter_tokens')
-    t = norm(it.node)
-    if 'for part in self.iter_parts():' in t and 'yield from part.iter_tokens()' in t and 'yield part' in t:
-        rep.ok('C01.R5', it.site, 'tokens are enumerated by recursing in iter_parts order', 'ok', nontrivial=False)
-    else:
-        rep.fail('C01.R5', it.site, 'tokens are enumerated by recursing in iter_parts order', 'iter_tokens does not recurse over iter_parts()', where=it.where)
+    rep.saw_func(it)
+    what = 'tokens are enumerated by recursing in iter_parts order'
+    try:
+        report = pieces.analyse_loop(it.node, 'self.iter_parts()', carried=None, recurse_attr='iter_tokens')
+        rep.ok('C01.R5', it.site, what, 'every part is yielded or recursed into exactly once, in order (%d paths)' % len(report))
+    except pieces.Violation as v:
+        rep.fail('C01.R5', it.site, what, 'iter_tokens does not enumerate every part of iter_parts() once, in order: %s' % str(v)[:200], where=it.where)
     for site in (PM + ':Deb822Element.convert_to_text', PM + ':Deb822FileElement.dump', PM + ':Deb822ParagraphElement.dump'):
         d = src.func(site)
-        t = norm(d.node)
-        if "''.join((t.text for t in self.iter_tokens()))" in t and ' if ' not in t.split("''.join")[1].split('\n')[0]:
-            rep.ok('C01.R5', d.site, 'text = concatenation of all token texts', 'no filter, empty separator', nontrivial=False)
+        rep.saw_func(d)
+        dnode, _ = normalize.inline_helpers(d)
+        verdict = _concat_of_all_tokens(dnode)
+        if verdict is True:
+            rep.ok('C01.R5', d.site, 'text = concatenation of all token texts', 'no filter, empty separator')
+        elif verdict is None:
+            raise AnalysisError('%s: the way the text is assembled is outside the recognised idioms' % d.site)
         else:
-            rep.fail('C01.R5', d.site, 'text = concatenation of all token texts', 'the dump does not concatenate the text of every token in order', where=d.where)
-    # paragraph classes: iter_parts enumerates the order structure
-    for cname, want in (('Deb822NoDuplicateFieldsParagraphElement', 'self._kvpair_elements[x]'), ('Deb822DuplicateFieldsParagraphElement', 'yield from self._kvpair_order')):
+            rep.fail('C01.R5', d.site, 'text = concatenation of all token texts', 'the dump does not concatenate the text of every token in order: ' + verdict, where=d.where)
+    # paragraph classes: iter_parts enumerates the fields through the order structure (interpreted on symbolic heaps)
+    from . import C10
+    from .. import heap as H
+    A, B, C = H.Key('a', 'A'), H.Key('b', 'B'), H.Key('c', 'C')
+    for cname in (C10.DUP, C10.NOD):
         ipf = src.func('%s:%s.iter_parts' % (PM, cname))
-        t = norm(ipf.node)
-        if want in t and '_kvpair_order' in t:
-            rep.ok('C01.R5', ipf.site, 'paragraph parts follow the field order structure', 'ok', nontrivial=False)
+        rep.saw_func(ipf)
+        heap = C10.mk_heap(src, [])
+        if cname == C10.DUP:
+            para, kvs, _nodes = C10.build_dup(heap, [A, B, A, C])
+            want = [k.name for k in kvs]
         else:
-            rep.fail('C01.R5', ipf.site, 'paragraph parts follow the field order structure', 'iter_parts does not enumerate the fields through the order structure', where=ipf.where)
+            keys = [B, A, C]
+            lst, nodes = H.build_list(heap, keys)
+            table = heap.new_dict('@table')
+            for k, n in zip(keys, nodes):
+                heap.objs[table.name]['entries'].append((k, n))
+            oset = heap.alloc('OrderedSet', {'_OrderedSet__table': table, '_OrderedSet__order': lst}, name='@set')
+            d = heap.new_dict('@elements')
+            want = []
+            kvd = {k.cls: C10.mk_kv(heap, k, k.cls + '0') for k in keys}
+            for k in [A, B, C]:      # dictionary order differs from field order on purpose
+                heap.objs[d.name]['entries'].append((k, kvd[k.cls]))
+            want = [kvd[k.cls].name for k in keys]
+            para = heap.alloc(cname, {'_kvpair_order': oset, '_kvpair_elements': d, 'parent_element': None}, name='@para')
+        fn, it, clo, _a = C10.run_method(src, heap, para, cname, 'iter_parts', [])
+        try:
+            got = [getattr(x, 'name', repr(x)) for x in it.seq(it.call(clo, []))]
+        except H.Raised as x:
+            got = 'raises %s' % x.exc
+        if got == want:
+            rep.ok('C01.R5', ipf.site, 'paragraph parts follow the field order structure', ' '.join(want))
+        else:
+            rep.fail('C01.R5', ipf.site, 'paragraph parts follow the field order structure',
+                     'iter_parts enumerates %s although the order structure holds %s' % (got, want), where=ipf.where)
+
+
+def _concat_of_all_tokens(fnode):
+    """True / reason string / None (unrecognised) for "some return value is ''.join(<t.text for every t in self.iter_tokens()>)" """
+    lists = {}
+    for st in walk_no_nested(fnode):
+        if isinstance(st, ast.Assign) and len(st.targets) == 1 and isinstance(st.targets[0], ast.Name) and isinstance(st.value, ast.List) and not st.value.elts:
+            lists[st.targets[0].id] = []
+    for st in walk_no_nested(fnode):
+        if isinstance(st, ast.For) and norm(st.iter) == 'self.iter_tokens()' and isinstance(st.target, ast.Name):
+            for b in st.body:
+                if isinstance(b, ast.Expr) and isinstance(b.value, ast.Call) and isinstance(b.value.func, ast.Attribute) and b.value.func.attr == 'append' \
+                        and isinstance(b.value.func.value, ast.Name) and b.value.func.value.id in lists and len(st.body) == 1:
+                    lists[b.value.func.value.id].append((st.target.id, b.value.args[0]))
+    verdicts = []
+    for r in walk_no_nested(fnode):
+        if not (isinstance(r, ast.Return) and isinstance(r.value, ast.Call) and isinstance(r.value.func, ast.Attribute) and r.value.func.attr == 'join'
+                and len(r.value.args) == 1):
+            continue
+        sep = r.value.func.value
+        if not (isinstance(sep, ast.Constant) and sep.value == ''):
+            verdicts.append('the separator is %s' % norm(sep))
+            continue
+        x = r.value.args[0]
+        while isinstance(x, ast.Call) and norm(x.func) in ('list', 'tuple', 'iter') and len(x.args) == 1:
+            x = x.args[0]
+        if isinstance(x, (ast.GeneratorExp, ast.ListComp)):
+            if len(x.generators) != 1 or norm(x.generators[0].iter) != 'self.iter_tokens()':
+                verdicts.append('it does not iterate over self.iter_tokens()')
+            elif x.generators[0].ifs:
+                verdicts.append('tokens are filtered by `%s`' % norm(x.generators[0].ifs[0]))
+            elif norm(x.elt) != norm(x.generators[0].target) + '.text':
+                verdicts.append('the joined pieces are %s, not the token text' % norm(x.elt))
+            else:
+                verdicts.append(True)
+        elif isinstance(x, ast.Call) and norm(x.func) == 'map' and len(x.args) == 2 and norm(x.args[1]) == 'self.iter_tokens()':
+            fn = x.args[0]
+            ok = (isinstance(fn, ast.Lambda) and len(fn.args.args) == 1 and norm(fn.body) == fn.args.args[0].arg + '.text') or \
+                norm(fn) in ("operator.attrgetter('text')", "attrgetter('text')")
+            verdicts.append(True if ok else 'the mapped function is %s' % norm(fn))
+        elif isinstance(x, ast.Name) and x.id in lists:
+            ent = lists[x.id]
+            if len(ent) == 1 and norm(ent[0][1]) == ent[0][0] + '.text':
+                verdicts.append(True)
+            else:
+                verdicts.append('the list is not filled with the text of every token')
+    if any(v is True for v in verdicts) and all(v is True for v in verdicts):
+        return True
+    bad = [v for v in verdicts if v is not True]
+    return bad[0] if bad else None
 
 
 def _in_test(node):
@@ -374,11 +731,13 @@ def check(src, rep, tier):
     rep.need('C01.R4', 4)
     rep.need('C01.R5', 8)
     rep.need('C01.R6', 2)
+    rep.need('C01.R7', 1)
     ginfo = rep.guard('C01.R1', r1_r2_field_regex, src)
     loop = None
     if ginfo is not None:
         loop = rep.guard('C01.R3', r3_tokenizer, src, ginfo)
     if loop is not None:
         rep.guard('C01.R6', r6_whitespace_merge, src, loop)
+        rep.guard('C01.R7', r7_mode_selection, src, loop)
     rep.guard('C01.R4', r4_regrouping, src)
     rep.guard('C01.R5', r5_element_order, src)
